@@ -207,8 +207,10 @@ func (g *G) Image(docker bool) *Node {
 	nl := g.c(4, "layers")
 	cfg := g.config(cmt, nl)
 	// now and then two images (platforms of one index) share one config blob
+	sharedCfg := false
 	if g.lastCfg != nil && g.lastCfg.Desc.MediaType == cmt && g.c(6, "sharecfg") == 5 {
 		cfg = g.lastCfg
+		sharedCfg = true
 	}
 	g.lastCfg = cfg
 	n.Blobs = append(n.Blobs, cfg)
@@ -258,6 +260,11 @@ func (g *G) Image(docker bool) *Node {
 	}
 	if g.c(5, "unknownfield") == 1 {
 		fields = append(fields, kv{"x-unknown", map[string]any{"a": 1, "b": []int{1, 2}}})
+	}
+	if sharedCfg {
+		// two images over one config must still be two manifests: harnesses tell images apart by digest
+		g.n++
+		fields = append(fields, kv{"x-serial", g.n})
 	}
 	n.Raw = g.marshal(fields)
 	n.Digest = regmodel.Digest(g.Alg, n.Raw)
